@@ -252,6 +252,8 @@ def ref_eval(node, env):
             raise Unspecified('text direction')
         return {'=': c == 0, '<>': c != 0, '<': c < 0, '>': c > 0, '<=': c <= 0, '>=': c >= 0}[op]
     for v in (l, r):
+        if isinstance(v, str) and v and not any(ch.isdigit() for ch in v) and v.strip().lower() not in MONTHISH:
+            return Err('#VALUE!')       # text that spells neither a number nor a date (no digit in it, not a month or day name) under + - * /
         if isinstance(v, bool) or not isinstance(v, (int, float)):
             raise Unspecified('arithmetic on %r' % (v,))
     if op == '+':
@@ -263,6 +265,9 @@ def ref_eval(node, env):
     if r == 0:
         return Err('#DIV/0!')
     return l / r
+
+
+MONTHISH = set('jan feb mar apr may jun jul aug sep sept oct nov dec january february march april june july august september october november december mon tue wed thu fri sat sun monday tuesday wednesday thursday friday saturday sunday today now am pm a p'.split())
 
 
 class Abort(Exception):
